@@ -19,7 +19,11 @@ type TimerObj struct {
 	obj     *StructObj
 }
 
-type cmdState struct{ startErr bool }
+type cmdState struct {
+	startErr, started, exited, killed bool
+	code                              int
+	out                               [][]*Term // output the helper still has to produce
+}
 
 type WriterStub struct{ name string }
 
@@ -184,6 +188,7 @@ func (ex *Exec) timerIntrinsic(fn *ssa.Function, name string, args []Value) (Val
 		return ex.ts.Bool(was), true
 	case "os/exec.Command":
 		c := &cmdState{}
+		ex.side["cmd"] = c
 		return c, true
 	case "(*os/exec.Cmd).StdinPipe", "(*os/exec.Cmd).StdoutPipe":
 		return Tuple{Iface{t: types.Typ[types.Int], v: &WriterStub{name}}, Iface{}}, true
@@ -193,7 +198,24 @@ func (ex *Exec) timerIntrinsic(fn *ssa.Function, name string, args []Value) (Val
 		if c.startErr {
 			return ex.errValue("exec: not found"), true
 		}
+		c.started = true
 		return Iface{}, true
+	case "(*os/exec.Cmd).Wait":
+		c := args[0].(*cmdState)
+		ex.wait(func() bool { return c.exited }, "helper process running")
+		return Iface{}, true
+	case "(*os.Process).Kill":
+		if c, ok := ex.side["cmd"].(*cmdState); ok && !c.exited {
+			c.exited = true
+			c.code = -1
+			c.killed = true
+		}
+		return Iface{}, true
+	case "(*os.ProcessState).ExitCode":
+		if c, ok := ex.side["cmd"].(*cmdState); ok {
+			return ex.ts.Const(64, uint64(int64(c.code))), true
+		}
+		return ex.ts.Const(64, 0), true
 	}
 	if fn.Pkg == ex.pkg {
 		switch fn.Name() {
@@ -205,6 +227,30 @@ func (ex *Exec) timerIntrinsic(fn *ssa.Function, name string, args []Value) (Val
 			}
 			ex.fireTimers()
 			return nil, true
+		case "verifHelperExit": // the helper process ends with the given exit code
+			if c, ok := ex.side["cmd"].(*cmdState); ok && c.started && !c.exited {
+				c.exited = true
+				c.code = int(int64(ex.concretize(args[0].(*Term))))
+			}
+			return nil, true
+		case "verifHelperOutput": // the helper writes these bytes to its stdout
+			if c, ok := ex.side["cmd"].(*cmdState); ok {
+				c.out = append(c.out, ex.bytesOf(args[0]))
+			}
+			return nil, true
+		case "verifHelperState": // 0 not started, 1 running, 2 exited, 3 killed
+			st := uint64(0)
+			if c, ok := ex.side["cmd"].(*cmdState); ok {
+				switch {
+				case c.killed:
+					st = 3
+				case c.exited:
+					st = 2
+				case c.started:
+					st = 1
+				}
+			}
+			return ex.ts.Const(64, st), true
 		case "verifSymbolicClock":
 			ex.clk().symbolic = true
 			return nil, true
